@@ -168,7 +168,14 @@ class DataFlow:
                     self._new(var=leaf.id, kind=kind, node=n, target=leaf, value=value, path=path, extra=extra)
             elif isinstance(leaf, ast.Subscript):
                 b = _base_name(leaf)
-                if b in self.locals:
+                through_attr = False
+                cur = leaf.value
+                while isinstance(cur, (ast.Subscript, ast.Attribute)):
+                    if isinstance(cur, ast.Attribute):
+                        through_attr = True
+                    cur = cur.value
+                # ``a.b[i] = v`` mutates the object a.b, it does not rebind a or a.b
+                if b in self.locals and not through_attr:
                     self._new(var=b, kind="substore", node=n, target=leaf, value=value, path=path, extra=kind)
             elif isinstance(leaf, ast.Attribute):
                 b = _base_name(leaf)
